@@ -173,11 +173,35 @@ class Builder:
   """AST -> Rat.  env: name -> ast expr | Rat (substitutions).  strip: call
   names treated as identity (e.g. float)."""
 
-  def __init__(self, env=None, strip=('float',), floor_class=None, attr_alias=None):
+  def __init__(self, env=None, strip=('float',), floor_class=None, attr_alias=None, int_mod=False):
     self.env = env or {}
     self.strip = set(strip)
     self.attr_alias = attr_alias or {}
     self.depth = 0
+    # residue algebra (opt-in): x % N and x // N for a positive constant N become linear forms over two atoms per
+    # (canonically oriented) argument, R[x|N] = x % N and Z[x|N] = [x % N == 0], using
+    #   (-x) % N = N - x % N - N*[x % N == 0]      and      x // N = (x - x % N) / N
+    self.int_mod = int_mod
+
+  def _residue(self, x, n):
+    """x % n as a linear form over R/Z atoms; x: Rat with constant denominator, n: positive integer."""
+    p = x.poly()
+    if p is None:
+      raise NFError('residue of a non-polynomial')
+    c = p.t.get((), Fraction(0))
+    if c.denominator != 1:
+      raise NFError('residue of a non-integral offset')
+
+    def canon(q):
+      k = q.t.get((), Fraction(0))
+      return q - Poly.const(k) + Poly.const(k % n)
+    a, b = canon(p), canon(-p)
+    if a.is_const():
+      return Rat(Poly.const(a.const_value() % n))
+    if repr(a) <= repr(b):
+      return Rat(Poly.atom('R[%r|%d]' % (a, n)))
+    r, z = Poly.atom('R[%r|%d]' % (b, n)), Poly.atom('Z[%r|%d]' % (b, n))
+    return Rat(Poly.const(n) - r - Poly.const(n) * z)
 
   def rat(self, node):
     self.depth += 1
@@ -239,6 +263,12 @@ class Builder:
         if r.is_zero():
           raise NFError('division by zero')
         return self.rat(node.left) / r
+      if self.int_mod and isinstance(node.op, (ast.Mod, ast.FloorDiv)):
+        n = self.rat(node.right).const_value()
+        if n is not None and n.denominator == 1 and n > 0:
+          x = self.rat(node.left)
+          res = self._residue(x, int(n))
+          return res if isinstance(node.op, ast.Mod) else (x - res) / Rat(Poly.const(n))
       if isinstance(node.op, ast.Pow):
         e = self.rat(node.right).const_value()
         if e is not None and e.denominator == 1 and 0 <= e <= 6:
